@@ -65,7 +65,7 @@ PROPS = {
         units=['path:buffer::PushBuffer::*', 'path:buffer::PushBufferIterator::*', 'nameglob:INPUT.*', 'nameglob:OUTPUT.*'],
         explanation='PushBuffer<T>: representation invariant wf() and abstract view live() (oldest first); push/push_force/pop/flush/get/get_mut/copy/peek/iter/next verified against the bounded-sequence operations for both kinds; '
                     'INPUT.*/OUTPUT.* rows on top of it',
-        not_decided=['printing (to_string uses format!/trim): outside Verus; the known slot-order defect of PushBuffer::to_string is therefore not decided here',
+        not_decided=['printing (to_string uses format!/trim): outside Verus; the slot-order defect of PushBuffer::to_string was repaired and confirmed natively, not by a contract',
                      'size_hint() of the iterator (not part of the statement)'],
         assumptions=['capacity in 1..2^30 (index arithmetic goes through i32)'],
     ),
@@ -110,7 +110,7 @@ PROPS = {
                     'violated std precondition) for all inputs under the resource envelope, and terminating; step() dispatches only to registered instruction functions (A-dispatch), '
                     'so the per-function results compose to "single-stepping never panics"; run() adds its own loop',
         not_decided=['bodies under external_body (listed in out_of_reach): printing (core::fmt), rand internals, EXEC.CMD (Command::spawn().expect -- the property assumes a harmless target), '
-                     'the parser (C03), Graph methods using closures, sorts/sums with iterator adapters (bounded Kani stand-ins in the thorough tier)',
+                     'the parser (C03), Graph::remove_node / diff, the BOOL/FLOAT sorts and FLOATVECTOR.SUM/MEAN (closures / f32 sum)',
                      'host stack overflow from recursion on deeply nested items, allocation failure: outside the envelope (C15)',
                      'termination of the rejection-sampling loop in random_bool_vector is probabilistic (exec_allows_no_decreases_clause)'],
         assumptions=['ENVELOPE: every stack, vector, record and code item is smaller than 2^31-1 (C01\'s stated resource envelope); ring-buffer capacities in 1..2^30',
@@ -127,7 +127,7 @@ PROPS = {
         explanation='Item::size == points, Item::traverse == nth_point (depth first, top first), Item::equals == deep_eq, Item::contains == first_pos (with the lemma: the point at first_pos is deep-equal to the pattern, '
                     'i.e. POSITION returns an index at which EXTRACT returns the searched item), Item::insert / CODE.INSERT: for every index inside the item, nth_point(result, i) is the inserted item, i.e. a following CODE.EXTRACT at i yields it (index 0 replaces the whole item); CODE.SIZE/EXTRACT/POSITION/CONTAINS/MEMBER/LENGTH/NULL/ATOM/CAR/CDR/CONS/LIST/FROM* rows (CONTAINS / MEMBER: TRUE exactly when some point of the container is deep-equal to the other operand); CODE.DISCREPANCY == discrepancy_of (position-wise mismatches of the printed forms + difference of the lengths for two lists, 0 / 1 otherwise) with the lemmas `discrepancy_of(a, b) == discrepancy_of(b, a)` and `discrepancy_of(a, a) == 0` (the property\'s "symmetric and zero for identical items"); CODE.= pushes whether the printed forms agree; CODE.NTH: index modulo (length + 1), 0 = the whole expression, i > 0 = the i-th element (as the repository\'s test pins it); Item::substitute / CODE.SUBST: every structural (deep-equal) match of the pattern below the root becomes the substitute and nothing else changes (recursive relation subst_ok), a match at the root gives the substitute itself; Item::container / CODE.CONTAINER: the list that directly holds the first depth-first occurrence of the pattern (container_of), an empty list when there is none, with the lemma that this container is a list one of whose own elements matches the pattern',
         not_decided=['CODE.INSERT: "changes nothing outside the replaced subtree" is proved only as far as kinds, the top-level length and the rest of the CODE stack go (no sibling-by-sibling frame); a negative or too large index is a no-op '
-                     '(pinned by the repository\'s test), not the modulo the documentation of EXTRACT describes',
+                     '(pinned by the repository\'s test), not the modulo the documentation of EXTRACT describes: clause fired.extract-after-insert.out-of-range-index, known finding',
                      'CODE.= / EXEC.= / CODE.DISCREPANCY compare PRINTED forms (Display): proved relative to `str_of`, an uninterpreted function of the item (R11); that two different items never print alike is not claimed',
                      'CODE.APPEND: operand handling and footprint only (it builds a two-element list, which is the documented append only for atoms; CODE.APPEND is not among the instructions the property lists)'],
     ),
@@ -137,7 +137,7 @@ PROPS = {
                'path:random::Standard::Distribution::sample', 'name:CODE.RAND', 'path:item::Item::size'],
         explanation='relative to the RNG contract (rand stubs): decompose appends positive parts summing to the request; random_code_with_size(n) has exactly n points for every n >= 1 (with termination); '
                     'random_code(m) is None for m <= 1 and has 1..m-1 points otherwise; CODE.RAND never exceeds |n| nor max-points-in-random-expressions',
-        not_decided=['leaf composition (instruction from the supplied list / NOOP, bound name unless a new one is drawn): existing_random_name collects keys().cloned() (outside Verus)',
+        not_decided=['a name leaf is "a currently bound name unless a new one is drawn": existing_random_name is proved to return a bound name, but whether a given leaf came from it or from new_random_name is not observable in a contract',
                      '"executable and printable under C01 and C11" is a cross-reference'],
         assumptions=['R2: rand 0.8 / names contracts as documented (gen_range panics on an empty range and returns a value inside it; Uniform::from(a..b) requires a < b)'],
     ),
